@@ -674,11 +674,15 @@ def exec_loop(self, fr, h, entry_states):
         self.loop_invs.append((inst.key, h, len(leaves), len(cands)))
     H = M.copy()
     assume_cands(self, H, cands)
+    H0 = H.copy()          # the loop-head state itself (run_body continues in H)
     self.pinned.append(cand_syms(cands, leaves))
     try:
         res = run_body(self, fr, h, H, body)
     finally:
         self.pinned.pop()
+    if not self.silent:
+        from . import mm
+        mm.loop_transfer(self, fr, h, body, H0, res['back'])
     return {'exits': res['exits'], 'returns': res['returns']}
 
 
